@@ -11,6 +11,7 @@ import hashlib
 import math
 import multiprocessing as mp
 import os
+import shutil
 import sys
 import tempfile
 import time
@@ -239,7 +240,7 @@ def _fmt_num(x, rng, style):
         s = "%.17g" % x
     elif style == "short":
         s = "%.6g" % x
-    elif style == "tie":          # exactly representable 4th/5th decimal 5 -> rounding tie candidates
+    elif style == "tie":          # a literal ending in ...5 one digit past the kept ones: a decimal rounding tie
         s = "%.3f5" % x
     else:
         s = "%.12f" % x
@@ -295,8 +296,6 @@ def b14_build(spec):
     if T is None:
         return None
     V, E, C = T["V"] * spec["scale"] + spec["shift"], list(T["E"]), T["C"]
-    if spec["kind"] == "polygon":
-        pass
     nv_att, ne_att = len(V), len(E)
     # extra, unattached vertices and edges
     extra_v = []
@@ -347,9 +346,7 @@ def b14_build(spec):
         if has:
             dv = float(rng.choice([rng.uniform(0.2, 3.0), rng.uniform(0, 1e-4), 0.0, rng.uniform(5, 500), 1.0,
                                    rng.uniform(0.9, 1.1)]))
-            dens_text = _fmt_num(dv, rng, spec["numstyle"] if spec["numstyle"] != "tie" else "tie4")
-            if spec["numstyle"] == "tie":
-                dens_text = "%.4f5" % dv
+            dens_text = ("%.4f5" % dv) if spec["numstyle"] == "tie" else _fmt_num(dv, rng, spec["numstyle"])
         trailer = ""
         if rng.random() < 0.3:
             trailer = "  original %d" % int(rng.integers(1, 999))
@@ -408,7 +405,6 @@ def b14_build(spec):
             w = len(toks) + 5
         widths = []
         rest = len(toks)
-        first = True
         while rest > 0:
             k = max(1, int(w if rng.random() < 0.7 else rng.integers(1, w + 1)))
             k = min(k, rest)
@@ -479,7 +475,7 @@ def b14_case(spec):
 
     import forsys.surface_evolver as fse
     import forsys.frames as ffr
-    fd, path = tempfile.mkstemp(suffix=".dmp", prefix="fvc_b14_")
+    fd, path = tempfile.mkstemp(suffix=".dmp", prefix="fvc_b14_", dir=os.environ.get("FVC_B14_TMP") or None)
     try:
         with os.fdopen(fd, "w", newline="") as f:
             f.write(text)
@@ -638,7 +634,13 @@ B14_BUDGET = dict(quick=21.0, thorough=400.0)
                "dumps, thorough <= 24000 dumps (time capped)")
 def run_b14(tier, seed):
     specs = [b14_spec(seed, i) for i in range(B14_N[tier])]
-    results = _run_pool(b14_case, specs, B14_BUDGET[tier])
+    scratch = tempfile.mkdtemp(prefix="fvc_b14_")      # workers killed at the time cap leave their dump here
+    os.environ["FVC_B14_TMP"] = scratch
+    try:
+        results = _run_pool(b14_case, specs, B14_BUDGET[tier])
+    finally:
+        os.environ.pop("FVC_B14_TMP", None)
+        shutil.rmtree(scratch, ignore_errors=True)
     failures, samples = [], []
     digests = set()
     agg = dict(cells=0, multi=0, neg=0, nodens=0, minf=10 ** 9, maxf=0, interfaces=0, varied=0, extras=0)
